@@ -354,3 +354,11 @@ SUBS = [
     Sub("rotations-2d", check_rotations, rot_case(ndim=2), nontrivial=nontrivial, quick=60, thorough=400),
     Sub("refuse", check_refuse_inplace, rot_case(), quick=150, thorough=800),
 ]
+
+
+# objects with a history (reads that may fill caches, in-place writes): observables equal those of a fresh object
+from pbt import aged as _aged  # noqa: E402
+
+SUBS.append(_aged.sub("C12", quick=120))
+ASSUMPTIONS = list(ASSUMPTIONS) + ["aged sub-property: library results are a function of the public primary state "
+                                   "(corners, n, names, units, bc, subregions, array, validity, labels, mapping, unit)"]
